@@ -28,7 +28,7 @@ ASSUMPTIONS = ["segmentation is simulated at the socket API (recv return "
                "identified by its exact bytes (re-packed on delivery)"]
 REQUIRED = ["reads", "delivered", "cuts_inside_header", "cuts_inside_body",
             "held_partial", "ctl_cases", "sw_cases", "over_2048",
-            "handshake_streams", "reads_inside_a_handler"]
+            "handshake_streams", "reads_inside_a_handler", "hello_with_body"]
 TIMEOUT = {"quick": 900, "thorough": 7200}
 
 _cache = {}
@@ -78,9 +78,26 @@ def make_stream (side, seed, big):
       k = "echo_request"
     m = ofgen.gen_message(rng, k, payload_lens=pl)
     msgs.append(m.pack())
+  if rng.random() < 0.3:
+    # a HELLO that carries a body (OpenFlow 1.0 5.5.1: receivers accept it
+    # and ignore the contents); the library never packs one, so it is built
+    # by hand.  The controller side also lets a foreign-version HELLO through.
+    ver = 1 if (side == "sw" or rng.random() < 0.5) else rng.choice([2, 4, 5])
+    body = bytes(rng.getrandbits(8) for _ in range(rng.choice([1, 4, 8, 8, 9, 24, 100])))
+    if rng.random() < 0.4: body = struct.pack("!HHL", 1, 8, 0x12)[:len(body)] or body
+    msgs.insert(rng.randrange(0, len(msgs) + 1),
+                struct.pack("!BBHL", ver, 0, 8 + len(body), rng.getrandbits(32)) + body)
   if len(_cache) > 64: _cache.clear()
   _cache[key] = msgs
   return msgs
+
+
+def delivered_form (m):
+  """What the recording handler sees for message bytes m: the re-packed
+  message.  A HELLO's body is ignored, so it comes back as its header."""
+  if m[1] == 0 and len(m) > 8:
+    return m[:2] + b"\x00\x08" + m[4:8]
+  return m
 
 
 class Recorder (object):
@@ -96,6 +113,8 @@ def run_case (case, rep):
   side = case["side"]
   msgs = make_stream(side, case["seed"], case.get("big", False))
   stream = b"".join(msgs)
+  exp = [delivered_form(m) for m in msgs]
+  if exp != msgs: rep.count("hello_with_body")
   cuts = sorted(set(c for c in case["cuts"] if 0 < c < len(stream)))
   bounds = [0]
   for m in msgs: bounds.append(bounds[-1] + len(m))
@@ -167,7 +186,7 @@ def run_case (case, rep):
       # messages wholly contained in the pulled prefix
       k = 0
       while k < len(msgs) and bounds[k + 1] <= P: k += 1
-      if rec.got != msgs[:k]:
+      if rec.got != exp[:k]:
         n = len(rec.got)
         if n > k:
           what = "delivered early/extra"
@@ -176,7 +195,7 @@ def run_case (case, rep):
         else:
           what = "delivered message differs"
         j = 0
-        while j < min(n, k) and rec.got[j] == msgs[j]: j += 1
+        while j < min(n, k) and rec.got[j] == exp[j]: j += 1
         fire(what, "after pulling %d of %d bytes (cuts %r): delivered %d "
              "messages, %d are complete; first mismatch at #%d: got %s "
              "expected %s" % (P, len(stream), cuts, n, k, j,
@@ -191,7 +210,7 @@ def run_case (case, rep):
         ok = False; break
       if P > bounds[k]: rep.count("held_partial")
     if not ok: break
-  if ok and rec.got != msgs:
+  if ok and rec.got != exp:
     fire("final delivery differs", "%d of %d" % (len(rec.got), len(msgs)))
   rep.count("delivered", len(rec.got))
   rep.count("ctl_cases" if side == "ctl" else "sw_cases")
@@ -214,6 +233,7 @@ def run_reentrant (case, rep):
   import pox.datapaths.switch as sw
   msgs = make_stream("sw", case["seed"], case.get("big", False))
   stream = b"".join(msgs)
+  msgs = [delivered_form(m) for m in msgs]
   cuts = sorted(set(c for c in case["cuts"] if 0 < c < len(stream)))
   def fire (key, what):
     rep.violation("C02 sw-reentrant %s" % key, what, case)
